@@ -42,15 +42,17 @@ def stat(qual, kind, bunch_pre, extra_params, f, name="definition"):
     return s
 
 
-def _order_or_all(c, A, S, E_of):
-    """edge filter of the `order` argument: all edges when None, else those with order+1 members"""
+def _count_by_order(c, A, M, size_of):
+    """number of edges in M, all of them when `order` is None, else those with order+1 members.
+    Stated as an if-then-else on the argument (not as a disjunction inside the filter) so that on each path the
+    definition is syntactically the counting term the code builds: no lambda extensionality is needed."""
     o = A.order.term
-    return lambda e: z3.Or(o == c.NONE, c.card(E_of(e)) == c.int_of(o) + 1)
+    return z3.If(o == c.NONE, c.card(M), _count(c, M, lambda e: size_of(e) == c.int_of(o) + 1))
 
 
 # undirected ------------------------------------------------------------------
 s = stat(NS + "degree", "H", _bunch_nodes, [("order", "val", None), ("weight", "val", None)],
-         lambda c, A, S, n: _count(c, sel(S.N, n), _order_or_all(c, A, S, lambda e: sel(S.E, e))))
+         lambda c, A, S, n: _count_by_order(c, A, sel(S.N, n), lambda e: c.card(sel(S.E, e))))
 s.req("unweighted", lambda c, A: A.weight.term == c.NONE, PROPS)
 s.req("order-int-or-none", lambda c, A: z3.Or(A.order.term == c.NONE, c.is_int(A.order.term)), PROPS)
 s.req("UInv", lambda c, A: UInv(c, A.snap0["net"]), PROPS)
@@ -65,15 +67,12 @@ def _dsize(c, S, e):
     return c.card(c.union(sel(S.Ein, e), sel(S.Eout, e)))
 
 
-def _dfilter(c, A, S):
-    o = A.order.term
-    return lambda e: z3.Or(o == c.NONE, _dsize(c, S, e) == c.int_of(o) + 1)
 
 
 for nm, memb in (("degree", lambda c, S, n: c.union(sel(S.Nin, n), sel(S.Nout, n))),
                  ("in_degree", lambda c, S, n: sel(S.Nin, n)), ("out_degree", lambda c, S, n: sel(S.Nout, n))):
     s = stat(DNS + nm, "DH", _bunch_nodes, [("order", "val", None), ("weight", "val", None)],
-             lambda c, A, S, n, memb=memb: _count(c, memb(c, S, n), _dfilter(c, A, S)))
+             lambda c, A, S, n, memb=memb: _count_by_order(c, A, memb(c, S, n), lambda e: _dsize(c, S, e)))
     s.req("unweighted", lambda c, A: A.weight.term == c.NONE, PROPS)
     s.req("order-int-or-none", lambda c, A: z3.Or(A.order.term == c.NONE, c.is_int(A.order.term)), PROPS)
     s.req("DInv", lambda c, A: DInv(c, A.snap0["net"]), PROPS)
